@@ -145,6 +145,7 @@ class Dex:
         self.extra_strings, self.extra_types = list(extra_strings), list(extra_types)
         self.extra_fields, self.extra_methods = list(extra_fields), list(extra_methods)   # (cls,name,type) / (cls,name,ret,params)
         self.version = version
+        self.share_equal_arrays = False       # True: classes with byte-identical static_values share one encoded_array_item
 
 
 # --------------------------------------------------------------------------- pools
@@ -385,7 +386,12 @@ def build(dex, map_order=None, fix_header=True, return_layout=False, string_data
             # static values
             rec["static_values"] = None
             if c.static_values:
-                rec["static_values"] = S[T_ENC_ARRAY].add(enc_array(c.static_values, P))
+                eb = enc_array(c.static_values, P)
+                if getattr(dex, "share_equal_arrays", False) and eb in S[T_ENC_ARRAY].items:
+                    # dx/d8 emit one encoded_array_item for classes whose static initial values are byte-identical
+                    rec["static_values"] = S[T_ENC_ARRAY].items.index(eb)
+                else:
+                    rec["static_values"] = S[T_ENC_ARRAY].add(eb)
             # annotations
 
             def annset(anns):
